@@ -4,11 +4,11 @@ set -u
 WT=$1; ID=$2; PROP=$3
 cd "$WT" || exit 9
 echo "== demo with the change"; timeout 300 /venv/bin/python seed/demo.py > /tmp/seed_demo_with.txt 2>&1; W=$?; tail -3 /tmp/seed_demo_with.txt
-git stash -q -- vyxal
+git stash -q -- vyxal documents
 echo "== demo without the change"; timeout 300 /venv/bin/python seed/demo.py > /tmp/seed_demo_without.txt 2>&1; O=$?; tail -2 /tmp/seed_demo_without.txt
 git stash pop -q
 echo "== suite with the change"; timeout 900 /venv/bin/python -m pytest -q -p no:cacheprovider --timeout=900 2>&1 | tail -1 > /tmp/seed_suite.txt; cat /tmp/seed_suite.txt
-git diff -- vyxal > /tmp/seed_patch.diff
+git diff -- vyxal documents > /tmp/seed_patch.diff
 echo "demo exit with=$W without=$O"
 mkdir -p /verif/seeded/$ID && cp /tmp/seed_patch.diff /verif/seeded/$ID/patch.diff && cp seed/demo.py /verif/seeded/$ID/demo.py && cp seed/notes.md /verif/seeded/$ID/notes.md 2>/dev/null
 cd /verif
